@@ -142,6 +142,11 @@ ShiftInst ==
      I("shift:mulparen", "E", Bin("E.Multiply", va, Paren(Num("2")))), I("shift:mul2e0", "E", Bin("E.Multiply", va, NumE("2", "0"))),
      I("shift:mul2p32", "E", Bin("E.Multiply", va, Num("4294967296"))), I("shift:mul2p64", "E", Bin("E.Multiply", va, Num("18446744073709551616"))),
      I("shift:mulhuge", "E", Bin("E.Multiply", va, Num("100000000000000000000000000000000000000000000000000000000000000000000000000000001"))),
+     \* neighbours of powers of two beyond 64 and 128 bits (exactly a power of two or exactly not: no rounding)
+     I("shift:mul2p64plus1", "E", Bin("E.Multiply", va, Num("18446744073709551617"))), I("shift:mul2p128", "E", Bin("E.Multiply", va, Num("340282366920938463463374607431768211456"))),
+     I("shift:mul2p128plus1", "E", Bin("E.Multiply", va, Num("340282366920938463463374607431768211457"))), I("shift:div2p128minus1", "E", Bin("E.Divide", va, Num("340282366920938463463374607431768211455"))),
+     I("shift:mul2p255minus1", "E", Bin("E.Multiply", va, Num("57896044618658097711785492504343953926634992332820282019728792003956564819967"))), I("shift:div2p200plus", "E", Bin("E.Divide", va, Num("1606938044258990275541962092341162602522202993782792835313721"))),
+     I("shift:mul2p255", "E", Bin("E.Multiply", va, Num("57896044618658097711785492504343953926634992332820282019728792003956564819968"))),
      I("shift:mul0", "E", Bin("E.Multiply", va, Num("0"))), I("shift:mul1_000", "E", Bin("E.Divide", va, Num("1_024"))),
      I("shift:mul3e2", "E", Bin("E.Multiply", va, NumE("3", "2"))), I("shift:mul2e1", "E", Bin("E.Multiply", va, NumE("2", "1"))),
      \* both operands literal: either one being a power of two suffices
